@@ -95,7 +95,9 @@ def build(repo):
                          ('evaluation number is its point number:: eval_num == G.pts',) + T3],
                modifies=['G.pending', 'G.offered', 'G.mver', 'G.lastslot', 'G.nptver'],
                ghost_return=[('G.pending', 'False'), ('G.offered', '1'), ('G.mver', 'G.mver + 1'), ('G.nptver', 'G.nptver + 1'), ('G.lastslot', 'NPT(G.nptver) - 1')],
-               ensures=['not G.pending', 'G.offered == 1', 'G.mver == old(G.mver) + 1', 'G.nptver == old(G.nptver) + 1', 'G.lastslot == NPT(G.nptver) - 1'], assumed=True, notes=CONS_NOTE)
+               ensures=['not G.pending', 'G.offered == 1', 'G.mver == old(G.mver) + 1', 'G.nptver == old(G.nptver) + 1', 'G.lastslot == NPT(G.nptver) - 1',
+                        'A-M (proved on the real Model.add_new_point in bundle model: num_pts and npt_so_far both grow by one):: NPT(G.nptver) == old(NPT(G.nptver)) + 1 and '
+                        'NUMPTS(G.nptver) == old(NUMPTS(G.nptver)) + 1'], assumed=True, notes=CONS_NOTE)
     D.contract('Model.add_new_sample', tags=['C03', 'C02', 'C17'], params={'k': 'int', 'rvec_extra': 'val'},
                requires=[('sample belongs to the point just stored:: k == G.lastslot', 'C03', 'C17'),
                          ('samples are offered in order, each once:: G.offered >= 1 and G.offered < G.lastk and rvec_extra == ROW(G.lastvals, G.offered)', 'C03', 'C17', 'C02')],
@@ -202,11 +204,14 @@ def build(repo):
     method('Controller.soft_restart', 'optexit', 'result', params={'nruns_so_far': 'int', 'x_in_abs_coords_to_save': 'opt:val'},
            msg_asserts={MAXRESTART_MSG: [('(f) a success flag is attached only to a finite objective:: G.objfinite', 'C10')]},
            asserts={'before:random_directions_within_bounds#1': [('random directions only under the documented option restarts.increase_npt:: params("restarts.increase_npt")', 'C19')],
+                    'before:Model.add_new_point#1': [('(C18) the interpolation set grows only while it is below the allowed maximum restarts.max_npt (the npt column of the diagnostic table '
+                                                      'never exceeds it):: NPT(G.nptver) < params("restarts.max_npt")', 'C18')],
                     'before:Controller.geometry_step#1': [
                         ('A-N2 (numeric): np.argsort returns distinct slots with the incumbent (distance 0) first; it is skipped unless restarts.soft.move_xk, where it is the first '
                          'slot moved; a point that became the incumbent during this loop sits in a slot already visited:: '
                          '(i == 0 and params("restarts.soft.move_xk")) or knew != KOPT(G.mver)', 'C04')]},
-           loops={'for:i#0': [('(C04 ii) the incumbent record was offered to the saved-point slot before the first point is moved:: i_ > 0 or G.savedver == G.mver', 'C04', 'C08')]},
+           loops={'for:i#0': [('(C04 ii) the incumbent record was offered to the saved-point slot before the first point is moved:: i_ > 0 or G.savedver == G.mver', 'C04', 'C08')],
+                  'for:i#1': [('(C18) the points still to be added fit below restarts.max_npt:: NPT(G.nptver) + (num_pts_to_add - i_) <= params("restarts.max_npt")', 'C18')]},
            extra_req=['nruns_so_far >= 0', 'no caller passes an extra point to save:: isnone(x_in_abs_coords_to_save)'],
            extra_mod=['G.restarts', 'self.last_successful_run'],
            ghost_return=[('G.restarts', 'G.restarts + (1 if isnone(result) else 0)')],
@@ -230,8 +235,12 @@ def build(repo):
     D.contract('solve_main', tags=['C02', 'C04', 'C08', 'C10'],
                params={'maxfun': 'int', 'nruns_so_far': 'int', 'nf_so_far': 'int', 'nx_so_far': 'int', 'npt': 'int',
                        'r0_avg_old': 'opt:val', 'objfun': 'cb:objfun', 'nsamples': 'cb:nsamples', 'h': 'opt:cb:h', 'x0': 'val',
-                       'r0_nsamples_old': 'opt:int'},
-               requires=['not G.reeval', 'G.calls == nf_so_far', 'G.pts == nx_so_far', '0 <= nx_so_far', 'nx_so_far <= nf_so_far',
+                       'r0_nsamples_old': 'opt:int', 'x0_eval_num_old': 'opt:int'},
+               requires=[('(C03, C11) a run that re-uses the residual of its starting point is handed ONE whole entry of the evaluation record: the point, its mean residual, its sample count and '
+                          'its evaluation number (the number under which the restarted model stores x0, and which the Jacobian\'s evaluation numbers and soln.xmin_eval_num then name):: '
+                          'implies(not isnone(r0_avg_old), x0 == EX(G.best) and r0_avg_old == ER(G.best) and r0_nsamples_old == ENS(G.best) and x0_eval_num_old == EEN(G.best))', 'C03', 'C11'),
+                         'not G.reeval', ('the run starts from the evaluation count so far (the nf column of the diagnostic table continues from it):: G.calls == nf_so_far', 'C02', 'C04', 'C08', 'C10', 'C18'),
+                         ('the run starts from the point count so far (the nx column of the diagnostic table continues from it):: G.pts == nx_so_far', 'C02', 'C04', 'C08', 'C10', 'C18'), '0 <= nx_so_far', 'nx_so_far <= nf_so_far',
                          'nf_so_far <= maxfun', 'maxfun == G.maxfun', 'not G.pending', 'nruns_so_far >= 0', 'G.offered == G.lastk', 'G.rows >= 0',
                          'fresh evaluation needs budget:: implies(isnone(r0_avg_old), nf_so_far < maxfun)',
                          'implies(params("init.run_in_parallel"), params("init.random_initial_directions"))',
@@ -241,10 +250,10 @@ def build(repo):
                          'params[growing.full_rank.use_full_rank_interp]', 'params[growing.perturb_trust_region_step]',
                          'params[growing.delta_scale_new_dirns]'],
                result=('val', 'val', 'val', 'opt:val', 'int', 'int', 'int', 'int', 'exit', 'unk', 'int', 'opt:val'),
-               ledger_inv=['INV_ledger(control)', 'no point left pending:: not G.pending', 'no re-evaluation licence is left over:: not G.reeval',
+               ledger_inv=[('INV_ledger(control)', 'C02', 'C04', 'C08', 'C10', 'C18'), 'no point left pending:: not G.pending', 'no re-evaluation licence is left over:: not G.reeval',
                            ('every stored point has all its samples:: G.offered == G.lastk', 'C02', 'C03', 'C17'),
                            ('run accounting:: nruns_so_far == old(nruns_so_far) + G.restarts - old(G.restarts)', 'C02', 'C04', 'C08', 'C10', 'C18'),
-                           'control.maxfun == maxfun', 'nruns_so_far >= 0', 'G.calls >= old(G.calls)',
+                           'control.maxfun == maxfun', 'nruns_so_far >= 0', ('G.calls >= old(G.calls)', 'C02', 'C04', 'C08', 'C10', 'C18'),
                            ('(C19 N5) when the caller leaves growing.ndirs_initial at its default npt - 1 (or above) the initial set is complete, so the run never enters the growing phase '
                             '(whose safety and new-direction steps draw random directions):: implies(G.fullinit and not G.proj, finished_growing)', 'C19'),
                            'G.restarts >= old(G.restarts)', 'G.rows >= 0'],
